@@ -406,3 +406,5 @@ PROPS["C18"]["rule"] += "; `conv`: every helper of essential_types::convert (wor
 
 for _p in ("C01", "C03", "C06"):
     PROPS[_p]["rule"] += "; a sample of the cases is also run through the single-mode public entry points (`api`: check_and_compute_solution_set, check_set_predicates, check_predicate) with an explicitly given post-state view, in single modes and in mode sequences (01, 10, 11, 011) over one shared cache"
+
+PROPS["C01"]["modules"] = ["Essential.Props.C01", "Essential.Props.C01b"]
